@@ -19,24 +19,25 @@ def handle : List String → String
     let rows := (configTable.map Config.show).mergeSort (fun a b => decide (a ≤ b))
     s!"{rows.length} {";".intercalate rows}"
   | ["connect", p, m, cb, sb, a] =>
-    match m.toNat?, cb.toNat?, sb.toNat?, authOf a with
-    | some mode, some c, some s, some auth => (connect ⟨p, mode, c, s, auth⟩).name
-    | _, _, _, _ => "bad-op"
+    match polIndex p, m.toNat?, cb.toNat?, sb.toNat?, authOf a with
+    | some i, some mode, some c, some s, some auth => (connect ⟨i, mode, c, s, auth⟩).name
+    | none, _, _, _, _ => Stage.unsupportedPolicy.name
+    | _, _, _, _, _ => "bad-op"
   | ["opnlen", p, m, cb, sb] =>
-    match m.toNat?, cb.toNat?, sb.toNat? with
-    | some mode, some c, some s =>
-      let cfg : Config := ⟨p, mode, c, s, .anonymous⟩
+    match polIndex p, m.toNat?, cb.toNat?, sb.toNat? with
+    | some i, some mode, some c, some s =>
+      let cfg : Config := ⟨i, mode, c, s, .anonymous⟩
       match opnRequest cfg, opnResponse cfg with
       | some q, some r => s!"{q.chunkLen} {q.sizeField} {r.chunkLen} {r.sizeField}"
       | _, _ => "none"
-    | _, _, _ => "bad-op"
+    | _, _, _, _ => "bad-op"
   | ["pwlen", p, sb, n] =>
-    match sb.toNat?, n.toNat? with
-    | some s, some k =>
-      match passwordCipherLen p s k with
+    match polIndex p, sb.toNat?, n.toNat? with
+    | some i, some s, some k =>
+      match passwordCipherLen i s k with
       | some l => toString l
       | none => "none"
-    | _, _ => "bad-op"
+    | _, _, _ => "bad-op"
   | _ => "bad-op"
 
 def main : IO Unit := runDriver handle
